@@ -6,7 +6,8 @@ EXTENDS Constraints, Json, IOUtils, TLC, SequencesExt
 
 CONSTANTS MaxC,        \* length constants range over 0..MaxC
           ChainCs,     \* constants used in the chain families (a subset of 0..MaxC)
-          Triples      \* BOOLEAN: include the three-atom families (thorough tier)
+          Triples,     \* BOOLEAN: include the three-atom families (thorough tier)
+          TripleCs     \* constants used in the three-atom families
 
 Cs == 0..MaxC
 RecOps == LenOps \ {"!="}
@@ -44,9 +45,9 @@ F3 == UNION {
 
 \* F4: three atoms (thorough)
 F4 == IF ~Triples THEN {} ELSE
-      {Scn("str", FALSE, <<<<a, b, c>>>>, <<>>) : a \in Plain(ChainCs), b \in Plain(ChainCs), c \in Plain(ChainCs)}
-      \cup {Scn("str", TRUE, <<<<a>>, <<b>>, <<c>>>>, <<>>) : a \in Plain(ChainCs), b \in Plain(ChainCs), c \in Plain(ChainCs)}
-      \cup {Scn("cprim", TRUE, <<<<>>, <<c>>>>, <<<<a>>, <<b>>>>) : a \in Plain(ChainCs), b \in Plain(ChainCs), c \in Plain(ChainCs)}
+      {Scn("str", FALSE, <<<<a, b, c>>>>, <<>>) : a \in Plain(TripleCs), b \in Plain(TripleCs), c \in Plain(TripleCs)}
+      \cup {Scn("str", TRUE, <<<<a>>, <<b>>, <<c>>>>, <<>>) : a \in Plain(TripleCs), b \in Plain(TripleCs), c \in Plain(TripleCs)}
+      \cup {Scn("cprim", TRUE, <<<<>>, <<c>>>>, <<<<a>>, <<b>>>>) : a \in Plain(TripleCs), b \in Plain(TripleCs), c \in Plain(TripleCs)}
 
 \* F5: patterns
 PatIdSeqs == {<<"ab">>, <<"bc">>, <<"b">>, <<"ab", "bc">>, <<"bmpx">>, <<"astral">>}
